@@ -132,8 +132,11 @@ def group_task(task):
             if verdict is None:
                 sh.ok("refine", c)
             else:
-                sig = "refine:%s:%s:%s:%s" % ("".join(u for u in UNITS if u in units), verdict[0],
-                                                "neg" if eb < ea else "pos", "dt" if with_time else "d")
+                febult = ":febult" if (D.m == 2 and D.d == cal.mdays(D.y, 2)) else ""
+                if not febult and D.iwd == 7 and D.iw == dur.iso_weeks_in_year(D.iy):
+                    febult = ":isoyrend"
+                sig = "refine:%s:%s:%s:%s%s" % ("".join(u for u in UNITS if u in units), verdict[0],
+                                                  "neg" if eb < ea else "pos", "dt" if with_time else "d", febult)
                 sh.bad("refine", sig, "ddiff %s %s -f %r: %s" % (texts[i], texts[j], fmt, verdict[1]),
                        dict(argv=["ddiff", texts[i], texts[j], "-f", fmt], observed=got), cls=c)
     sh.sample(dict(cmd="ddiff %s %s -f '%s'" % (texts[0], texts[-1], fmt)), cap=1)
@@ -147,8 +150,8 @@ def main(tier, seed):
     quick = tier == "quick"
     subs = [s for s in subsets() if not impossible(s)]
     tasks = []
-    ngroups = 2 if quick else 12
-    gsize = 22 if quick else 40
+    ngroups = 4 if quick else 16
+    gsize = 24 if quick else 40
     variant = 0
     for us in subs:
         date_only_ok = not any(u in us for u in "HMS")
